@@ -60,6 +60,9 @@ def handle : List String → Option String
   | ["ddl.name", s] => do
       let s ← strOfHex s
       pure (showPy (fun (c, r) => s!"{hexOfStr c} {hexOfStr r}") (rowNameAndRest s))
+  | ["ddl.name", s, "end"] => do        -- name_may_end_statement=True (the module name of a virtual table)
+      let s ← strOfHex s
+      pure (showPy (fun (c, r) => s!"{hexOfStr c} {hexOfStr r}") (rowNameAndRest s true))
   | ["ddl.consts"] =>
       let sp := ",".intercalate (((List.range 0x3100).filter fun n => isSpace (Char.ofNat n)).map toString)
       let cf := ",".intercalate (caseFoldsToAsciiCodes.map toString)
